@@ -114,3 +114,42 @@ void vsa_name_xstream(ABT_xstream x, const char *fmt, ...)
     if (p->p_root_ythread)
         vs_name(p->p_root_ythread, sizeof(ABTI_ythread), "%s.rootU", b);
 }
+
+/* ---- wait-list walker: the real pointer structure at every lock release ---- */
+#define MAXWATCH 16
+static struct {
+    const void *obj;
+    const ABTI_waitlist *wl;
+} watch[MAXWATCH];
+static int nwatch;
+
+static void waitlist_snap(const void *obj, const char *name)
+{
+    const ABTI_waitlist *wl = NULL;
+    for (int i = 0; i < nwatch; i++)
+        if (watch[i].obj == obj)
+            wl = watch[i].wl;
+    if (!wl)
+        return;
+    char line[1024], b1[64], b2[64], b3[64];
+    int n = snprintf(line, sizeof line, "Q %s head=%s tail=%s |", name, vs_addr_name(wl->p_head, b1, sizeof b1),
+                     vs_addr_name(wl->p_tail, b2, sizeof b2));
+    int k = 0;
+    for (ABTI_thread *p = wl->p_head; p && k < 40 && n < (int)sizeof line - 160; p = p->p_next, k++)
+        n += snprintf(line + n, sizeof line - n, " %s:%s:%s:%d", vs_addr_name(p, b1, sizeof b1),
+                      vs_addr_name(p->p_next, b2, sizeof b2), vs_addr_name(p->p_prev, b3, sizeof b3),
+                      (int)p->state.val);
+    if (k >= 40)
+        n += snprintf(line + n, sizeof line - n, " ...CYCLE-OR-TOO-LONG");
+    vs_note("%s", line);
+}
+
+void vsa_watch_waitlist(const void *obj, const ABTI_waitlist *wl)
+{
+    if (nwatch < MAXWATCH) {
+        watch[nwatch].obj = obj;
+        watch[nwatch].wl = wl;
+        nwatch++;
+        vs_set_snap_fn(obj, waitlist_snap);
+    }
+}
